@@ -201,8 +201,7 @@ pub fn step(mem: &Memfs, model: &mut Model, op: &Op, o: &StepOpts) -> Result<Ste
                 let mut next = want.clone();
                 // keep observed link bookkeeping that the model does not predict
                 for (k, n) in &obs.nodes {
-                    if let (Node::Link { rel, to_dir, .. }, Some(Node::Link { rel: mr, to_dir: md, .. })) = (n, next.t.nodes.get_mut(k)) {
-                        *mr = rel.clone();
+                    if let (Node::Link { to_dir, .. }, Some(Node::Link { to_dir: md, .. })) = (n, next.t.nodes.get_mut(k)) {
                         *md = *to_dir;
                     }
                 }
